@@ -50,6 +50,12 @@ func runC04(r *fw.Run, p *fw.Program) {
 		})
 		r.Import(sc, "C03.addchild", "C04.link", "(*D).AddChild(v), through which every gap value enters the tree: v is appended to the Children of d.Value's compound on every path that returns, for arrays and structs alike; a duplicate struct name never drops or replaces a value silently (no-return arm); v.Parent is set (C03.addchild obligations)", 5, nil)
 		r.Import(sc, "C03.range", "C04.roots", "", 0, func(k string) bool { return k == "fieldDecoder:one-reader" })
+		// a scalar root (json, jsonl, yaml, toml, xml ... replace the root with one scalar) has no children, so
+		// FillGaps cannot add gap fields to it (AddChild needs a compound): every input bit is accounted for only
+		// because the scalar's own range is set to the whole buffer, d.Len() (borrowed from C03.own)
+		r.Import(sc, "C03.own", "C04.scalarroot", "decoders that replace their root with a scalar set its range to exactly the whole buffer (d.Value.Range.Len = d.Len()): a scalar root cannot hold gap fields, so any shorter range leaves the remaining input bits in no field and no gap (C03.own obligations on direct writes of Value.Range)", 5, func(k string) bool {
+			return strings.HasPrefix(k, "Value.Range|")
+		})
 	}
 	r.GxDumpObligations("C04.")
 	r.Assumption("C04: loads are not time-stamped in the symbolic model of ranges.Gaps; a condition is related only to the code it directly guards")
